@@ -30,6 +30,8 @@ func main() {
 	commands["battles"] = cmdBattles
 	commands["rot"] = cmdRot
 	commands["api"] = cmdAPI
+	commands["alias"] = cmdAlias
+	commands["jobs"] = cmdJobs
 	commands["api-replay"] = cmdAPIReplay
 	commands["configs"] = cmdConfigs
 	commands["battles-replay"] = cmdBattlesReplay
